@@ -25,7 +25,7 @@ CASE_TIMEOUT = 900
 
 def bounds(tier):
     return {"positions": "every 2nd lattice point quick / all thorough (lattice = quarter of the finest cell)",
-            "field_lists": ["A C G", "G", "all"], "limit": "None, 0..finest", "split_template_boxes": [1, 2, 3, 4, 5, 6, 7]}
+            "field_lists": ["A C G", "G", "all", "G A (not header order)"], "limit": "None, 0..finest", "split_template_boxes": [1, 2, 3, 4, 5, 6, 7]}
 
 
 def cases(tier, seed):
@@ -150,7 +150,7 @@ def run_case(case, workdir):
         lists = [["all"], ref.fields[:3]]
     else:
         positions = (list(range(0, N + 1)) if case["dyadic"] else list(range(1, N, 2)))[::case["stride"]]
-        lists = [["A", "C", "G"], ["G"], ["all"]]
+        lists = [["A", "C", "G"], ["G"], ["all"], ["G", "A"]]
     k = 0
     for m in positions:
         pos = sm.pos_of(m)
